@@ -271,46 +271,73 @@ Definition is_error (r : res) : bool :=
   match r with RNotFound | RRejected | RCanceled => true | _ => false end.
 Definition is_panic (r : res) : bool := match r with RPanic => true | _ => false end.
 
-(* per id: Some (image, started already) while the vault has it, None once deleted *)
-Record mst := { m_ids : list (option (pl * bool)); m_now : Z }.
+(* per id: Some (image, phase) while the vault has it, None once deleted.
+   phase 0: no Start has returned nil for it (it is not executing and never was, in this process);
+   phase 1: a Start returned nil (it may be executing);
+   phase 2: after that a call delivered it with a terminal status (its execution has finished). *)
+Record mst := { m_ids : list (option (pl * nat)); m_now : Z }.
 
-Definition m_get (m : mst) (id : nat) : option (pl * bool) := nth id (m_ids m) None.
+Definition m_get (m : mst) (id : nat) : option (pl * nat) := nth id (m_ids m) None.
+
+Definition is_terminal_res (r : res) : bool :=
+  match r with RStatus s => is_terminal s | _ => false end.
+Definition is_canceled (r : res) : bool := match r with RCanceled => true | _ => false end.
+
+(* a call delivered the plan: if it was started and is terminal now, its execution has finished *)
+Definition note_seen (m : mst) (id : nat) (obs : res) : mst :=
+  match m_get m id with
+  | Some (p, 1%nat) =>
+      if is_terminal_res obs then {| m_ids := upd_nth id (Some (p, 2%nat)) (m_ids m); m_now := m_now m |} else m
+  | _ => m
+  end.
 
 (* verdict of one op: 0 fine, 1 panic, 3 a second Start succeeded, 4 Start succeeded on a plan that may
    not be started (stale, not NotStarted, invalid, maxSubmit 0), 5 a call on an id the vault does not have
-   did not fail *)
+   did not fail, 9 Wait blocked (until the caller's deadline) on a plan that is not executing - one no Start
+   ever succeeded on, one whose execution has finished, or an id the vault does not have: something a
+   rejected Start (or a finished run) left behind, i.e. the rejection was not free of side effects *)
 Definition mon_op (ms : Z) (m : mst) (o : hop * res) : nat * mst :=
   let '(op, obs) := o in
   if is_panic obs then (1%nat, m) else
-  let on_missing id := match m_get m id with None => negb (is_error obs) | Some _ => false end in
   match op with
   | HSubmit true _ =>
       match obs with
       | ROk => (O, {| m_ids := m_ids m ++ [Some ({| pl_status := NotStarted; pl_submit := Some (m_now m);
-                                                   pl_valid := true |}, false)]; m_now := m_now m |})
+                                                   pl_valid := true |}, O)]; m_now := m_now m |})
       | _ => (O, m)
       end
   | HSubmit false _ => (O, m)
   | HStart id =>
       match m_get m id with
       | None => (if is_error obs then O else 5%nat, m)
-      | Some (p, started) =>
+      | Some (p, phase) =>
           match obs with
-          | ROk => if started then (3%nat, m)
+          | ROk => if negb (Nat.eqb phase 0) then (3%nat, m)
                    else if spec_startable ms (m_now m) p
-                        then (O, {| m_ids := upd_nth id (Some (p, true)) (m_ids m); m_now := m_now m |})
+                        then (O, {| m_ids := upd_nth id (Some (p, 1%nat)) (m_ids m); m_now := m_now m |})
                         else (4%nat, m)
           | _ => (O, m)
           end
       end
-  | HWait id | HPlan id => (if on_missing id then 5%nat else O, m)
+  | HWait id =>
+      match m_get m id with
+      | None => (if is_canceled obs then 9%nat else if is_error obs then O else 5%nat, m)
+      | Some (_, phase) =>
+          if is_canceled obs && negb (Nat.eqb phase 1) then (9%nat, m) else (O, note_seen m id obs)
+      end
+  | HPlan id =>
+      match m_get m id with
+      | None => (if is_error obs then O else 5%nat, m)
+      | Some _ => (O, note_seen m id obs)
+      end
   | HStatus id more _ =>
       if existsb is_panic more then (1%nat, m)
       else match m_get m id with
            | None => (if forallb is_error (obs :: more) then O else 5%nat, m)
-           | Some _ => (O, m)
+           | Some _ => (O, note_seen m id (last more obs))
            end
-  | HAwait _ | HOpen _ => (O, m)
+  | HAwait id => (O, note_seen m id obs)
+  | HOpen _ => (O, m)
   | HTick d => (O, {| m_ids := m_ids m; m_now := m_now m + d |})
   | HDelete id => (O, {| m_ids := upd_nth id None (m_ids m); m_now := m_now m |})
   end.
@@ -335,7 +362,7 @@ Fixpoint first_over (i : nat) (l : list nat) : nat :=
 Definition hist_monitor (h : hist) : nat * nat :=
   match first_over 0 (h_execs h) with
   | S i => (2%nat, S i)                                           (* kind 2: a plan executed more than once *)
-  | O => mon_ops (h_max h) {| m_ids := map (fun x => Some (fst x, false)) (h_pre h); m_now := h_now h |}
+  | O => mon_ops (h_max h) {| m_ids := map (fun x => Some (fst x, O)) (h_pre h); m_now := h_now h |}
                  0 (h_ops h)
   end.
 
@@ -345,7 +372,8 @@ Definition count_ok (l : list res) : nat :=
 (* bursts: 0 fine, 1 panic, 2 more than one execution, 3 more than one Start succeeded,
    4 a Start succeeded on a plan that may not be started, 6 no Start succeeded on a startable plan,
    7 executions differ from successful Starts, 5 a call on a missing id did not fail,
-   8 a failed Start returned something that is not an error *)
+   8 a failed Start returned something that is not an error,
+   9 no Start succeeded, yet a concurrent Wait (or the final read) blocked until its deadline *)
 Definition burst_monitor (b : burst) : nat :=
   let oks := count_ok (b_starts b) in
   let startable := match b_pl b with Some p => spec_startable (b_max b) (b_now b) p | None => false end in
@@ -356,6 +384,7 @@ Definition burst_monitor (b : burst) : nat :=
   else if startable && Nat.eqb oks 0 then 6%nat
   else if negb (Nat.eqb (b_execs b) oks) then 7%nat
   else if negb (forallb (fun r => res_eqb r ROk || is_error r) (b_starts b)) then 8%nat
+  else if Nat.eqb oks 0 && existsb is_canceled (b_others b ++ [b_final b]) then 9%nat
   else match b_pl b with
        | None => if forallb is_error (b_others b ++ [b_final b]) then O else 5%nat
        | Some _ => O
